@@ -242,6 +242,84 @@ Proof.
     exists e, n. split; [exact He|]. split; [destruct Hr as [Hr|Hr]; [left; exact Hr|right; lia]|lia].
 Qed.
 
+(* ---- the rune-wise scan and the byte-wise scan agree ---- *)
+(* a continuation byte is not a brace *)
+Lemma cont_not_brace b : is_cont b = true -> Ascii.eqb b (ch "{") = false /\ Ascii.eqb b (ch "}") = false.
+Proof.
+  unfold is_cont, bN. intros H.
+  split; apply Ascii.eqb_neq; intros ->; vm_compute in H; discriminate.
+Qed.
+
+(* the bytes a multi-byte rune swallows are all continuation bytes, and they are there *)
+Lemma rune_width_conts a r :
+  (rune_width (a :: r) - 1 <= List.length r)%nat
+  /\ forall b, In b (firstn (rune_width (a :: r) - 1) r) -> is_cont b = true.
+Proof.
+  unfold rune_width.
+  repeat match goal with
+         | |- context [if ?b then _ else _] => let E := fresh "E" in destruct b eqn:E
+         | |- context [match ?l with [] => _ | _ :: _ => _ end] => destruct l
+         end; cbn [Nat.sub List.length firstn In]; (split; [lia|]); intros b Hb;
+    repeat match goal with
+           | H : _ \/ _ |- _ => destruct H
+           | H : False |- _ => contradiction
+           | H : _ && _ = true |- _ => apply Bool.andb_true_iff in H; destruct H
+           end; subst; try assumption; try contradiction.
+Qed.
+
+Lemma bytes_skip_conts k (r : bytes) pos o c :
+  (k <= List.length r)%nat -> (forall b, In b (firstn k r) -> is_cont b = true) ->
+  brace_scan_bytes r pos o c = brace_scan_bytes (skipn k r) (pos + Z.of_nat k) o c.
+Proof.
+  revert r pos; induction k as [|k IH]; intros r pos Hk Hc.
+  - cbn [skipn]. f_equal. lia.
+  - destruct r as [|b r]; [cbn in Hk; lia|].
+    cbn [skipn brace_scan_bytes].
+    destruct (cont_not_brace b) as [H1 H2]; [apply Hc; left; reflexivity|].
+    rewrite H1, H2. rewrite (IH r (pos + 1)).
+    + f_equal. lia.
+    + cbn [List.length] in Hk. lia.
+    + intros b' Hb'. apply Hc. right. exact Hb'.
+Qed.
+
+Lemma ascii_width1 a r : (bN a <? 128)%N = true -> rune_width (a :: r) = 1%nat.
+Proof. intros H. unfold rune_width. rewrite H. reflexivity. Qed.
+
+Lemma brace_is_ascii a : Ascii.eqb a (ch "{") = true \/ Ascii.eqb a (ch "}") = true -> (bN a <? 128)%N = true.
+Proof. intros [H|H]; apply Ascii.eqb_eq in H; subst; reflexivity. Qed.
+
+(* The rune-wise scan of the Go loop finds exactly the position the byte-wise scan finds:
+   a multi-byte (or invalid) sequence can neither hide a brace nor fake one. *)
+Theorem brace_scan_bytewise_lemma :
+  forall fuel (s : bytes) pos o c it e n,
+    brace_scan fuel s pos o c it = Ok (e, n) -> e = brace_scan_bytes s pos o c.
+Proof.
+  induction fuel as [|f IH]; intros s pos o c it e n; cbn [brace_scan]; [discriminate|].
+  destruct s as [|a r]; [intros [= <- _]; reflexivity|].
+  cbn [brace_scan_bytes]. cbv zeta.
+  destruct (Ascii.eqb a (ch "{")) eqn:E1.
+  { rewrite (ascii_width1 a r) by (apply brace_is_ascii; left; exact E1).
+    destruct ((0 <? o + 1) && (o + 1 =? c)); [intros [= <- _]; reflexivity|].
+    cbn [skipn Z.of_nat Pos.of_succ_nat]. apply IH. }
+  destruct (Ascii.eqb a (ch "}")) eqn:E2.
+  { rewrite (ascii_width1 a r) by (apply brace_is_ascii; right; exact E2).
+    destruct ((0 <? o) && (o =? c + 1)); [intros [= <- _]; reflexivity|].
+    cbn [skipn Z.of_nat Pos.of_succ_nat]. apply IH. }
+  intros H. apply IH in H. rewrite H.
+  destruct (rune_width_conts a r) as [Hk Hc].
+  pose proof (rune_width_pos (a :: r)) as Hw.
+  rewrite (bytes_skip_conts (rune_width (a :: r) - 1) r (pos + 1) o c Hk Hc).
+  replace (rune_width (a :: r)) with (S (rune_width (a :: r) - 1)) at 1 2 by lia.
+  cbn [skipn]. f_equal. lia.
+Qed.
+
+(* non-vacuity: "e-acute { euro } x" - two multi-byte runes around the braces *)
+Example brace_scan_bytewise_nonvacuous :
+  brace_scan 9 (hx "c3a97be282ac7d78") 0 0 0 0 = Ok (6, 4)
+  /\ brace_scan_bytes (hx "c3a97be282ac7d78") 0 0 0 = 6
+  /\ brace_scan 9 (hx "ff7be27d") 0 0 0 0 = Ok (3, 4).
+Proof. vm_compute. repeat split; reflexivity. Qed.
+
 Lemma len2_gt1 (x y : bytes) : (len [x; y] >? 1) = true.
 Proof. reflexivity. Qed.
 Lemma len1_gt1 (x : bytes) : (len [x] >? 1) = false.
